@@ -277,6 +277,10 @@ type histCase struct {
 	Assign [][2]string `json:"assign"` // key, value
 	// Setup: assignments made before the script by Params.Setup (Env.Setenv)
 	Setup [][2]string `json:"setup,omitempty"`
+	// Mode: "" = one env line per assignment; "oneline" = all assignments as
+	// arguments of one env command; "oneline-display" = the same with an
+	// argument that only displays a variable before each assignment
+	Mode string `json:"mode,omitempty"`
 }
 
 func parseEnvDump(s string) (map[string]string, string) {
@@ -300,15 +304,30 @@ func checkHistory(root string, h histCase) []kit.V {
 	for _, a := range h.Setup {
 		model[a[0]] = a[1]
 	}
-	for _, a := range h.Assign {
-		sb.WriteString("env " + Q(a[0]+"="+a[1]) + "\n")
-		model[a[0]] = a[1]
+	if h.Mode != "" && len(h.Assign) > 0 {
+		sb.WriteString("env")
+		for i, a := range h.Assign {
+			if h.Mode == "oneline-display" {
+				sb.WriteString(" " + []string{"Y", "X", "NOSUCH"}[i%3])
+			}
+			sb.WriteString(" " + Q(a[0]+"="+a[1]))
+			model[a[0]] = a[1]
+		}
+		sb.WriteString("\n")
+	} else {
+		for _, a := range h.Assign {
+			sb.WriteString("env " + Q(a[0]+"="+a[1]) + "\n")
+			model[a[0]] = a[1]
+		}
 	}
 	sb.WriteString("args 0 $X ${X} $Y ${Y} ${X@R} a$X-b\n")
 	sb.WriteString("getenv 1 X\ngetenv 2 Y\ngetenv 4 HOME\n")
 	sb.WriteString("exec henv\ncapstdout 3\n")
 	rec, res := runScriptSetup(root, sb.String(), h.Setup)
 	key := func(class string) string {
+		if h.Mode != "" {
+			return fmt.Sprintf("%s %s assignments=%q", class, h.Mode, h.Assign)
+		}
 		if h.Setup != nil {
 			return fmt.Sprintf("%s setup=%q assignments=%q", class, h.Setup, h.Assign)
 		}
@@ -626,6 +645,11 @@ func realMain() {
 			hists = append(hists, histCase{Assign: as, Setup: su})
 		}
 	}
+	// several assignments as arguments of one env command, with and without
+	// arguments that only display a variable in between
+	for _, as := range seqs(vAssigns, 1, 3) {
+		hists = append(hists, histCase{Assign: as, Mode: "oneline"}, histCase{Assign: as, Mode: "oneline-display"})
+	}
 	var next int64 = -1
 	for w := 0; w < nw; w++ {
 		wg.Add(1)
@@ -683,7 +707,7 @@ func realMain() {
 
 	r.Set("evaluations", evals)
 	r.Set("distinct_nontrivial", nontrivial)
-	r.Set("rule", fmt.Sprintf("quoting law: every word of <= %d bytes over {a,SP,TAB,',$,#,CR,{,},@,\\,=,à,0xA0} quoted (3 placements) and every pair of words of <= 2 bytes (separate and adjacent); splitting: every line of <= %d tokens over {a,b,SP,TAB,','',#,$X,${X},${X@R},$$,${/},${:},CR,à,NEL,VT,FF}; names containing '@' (X@Y, X@, X@Rx, X@R@Y, @X, X@r) through ${NAME} and ${NAME@R}; long lines: a word of 4095..4097, 65500..65537, 70000, 131072 or 1048576 bytes (plain, quoted, after a variable, in a comment) between two ordinary lines; env histories: every sequence of <= %d assignments over {X,Y} x 10 values, and every sequence of 1-2 assignments made by Params.Setup over {X,Y,HOME} x 2 values followed by 0-2 script assignments, observed through expansion, Getenv and a child process; @R: every value of <= 3 bytes over 10 regexp metacharacters against every string of <= %d. non-trivial = non-empty words / lines with a quote, $, # or blank / all histories and values, counted", n1, n2, maxH, nstr))
+	r.Set("rule", fmt.Sprintf("quoting law: every word of <= %d bytes over {a,SP,TAB,',$,#,CR,{,},@,\\,=,à,0xA0} quoted (3 placements) and every pair of words of <= 2 bytes (separate and adjacent); splitting: every line of <= %d tokens over {a,b,SP,TAB,','',#,$X,${X},${X@R},$$,${/},${:},CR,à,NEL,VT,FF}; names containing '@' (X@Y, X@, X@Rx, X@R@Y, @X, X@r) through ${NAME} and ${NAME@R}; long lines: a word of 4095..4097, 65500..65537, 70000, 131072 or 1048576 bytes (plain, quoted, after a variable, in a comment) between two ordinary lines; env histories: every sequence of <= %d assignments over {X,Y} x 10 values, and every sequence of 1-2 assignments made by Params.Setup over {X,Y,HOME} x 2 values followed by 0-2 script assignments, and 1-3 assignments given as arguments of one env command (also with display-only arguments in between), observed through expansion, Getenv and a child process; @R: every value of <= 3 bytes over 10 regexp metacharacters against every string of <= %d. non-trivial = non-empty words / lines with a quote, $, # or blank / all histories and values, counted", n1, n2, maxH, nstr))
 	r.Set("env_histories", len(hists))
 	r.Set("r_law_values", len(rvals))
 	r.Set("exhaustive", !r.Capped())
